@@ -516,9 +516,28 @@ def gen_directed_pairs():
                  ([b"--output", b"f"], [b"--out", b"f"]), ([b"x", b"-V"], [b"x", b"-v"]),
                  ([b"r", b"-N"], [b"run", b"-n"]), ([b"exec", b"-nN", b"a"], [b"run", b"-nn", b"a"]),
                  ([b"-V", b"r", b"-N", b"a"], [b"-v", b"run", b"-n", b"a"])]
+        if posflag is None:
+            # detached vs attached value of an option that allows negative numbers: every spelling of a number the
+            # lexer documents (`-1`, `-1.`, `-2.5`, `-1e3`) is a VALUE in the detached form too (seeded change seed2/C08-3)
+            c["args"].append({"id": b"scale", "short": "s", "long": b"scale", "action": "set", "flags": {"negnum"}})
+            for num in (b"-1", b"-1.", b"-10.", b"-2.5", b"-1e3", b"-0", b"-3.e2"):
+                pairs += [([b"--scale", num], [b"--scale=" + num]), ([b"-s", num], [b"-s" + num]),
+                          ([b"-s", num, b"x"], [b"-s=" + num, b"x"])]
         for a, b in pairs:
             if posflag == "hyphen" and any(t in (b"-Oval", b"-qOval") for t in a):
                 continue        # under a hyphen-value positional a cluster with an undefined character (`-Oval`) is a VALUE
+            out.append(mark_equal(respell_sx(c, [b"prog"] + a, [b"prog"] + b)))
+    # an explicit `--` before positionals that do not look like flags, at a level with low-index multiples
+    # (`<sources>... <target>`) (seeded change seed2/C08-1: the look-ahead that moves
+    # the current value to the next positional must not take the bare `--` for a new argument)
+    cp = {"name": b"p", "about": b"A:p", "groups": [], "aliases": [], "settings": [], "subs": [],
+          "args": [{"id": b"f", "short": "f", "action": "settrue", "flags": set()},
+                   {"id": b"sources", "num": (1, None), "flags": {"required"}}, {"id": b"target", "flags": {"required"}}]}
+    # (under allow_missing_positional `--` is NOT neutral: it is documented to skip to the last positional)
+    for c, lines in ((cp, [([b"a", b"b", b"dest"], [b"a", b"b", b"--", b"dest"]), ([b"a", b"b", b"dest"], [b"--", b"a", b"b", b"dest"]),
+                           ([b"a", b"b", b"dest"], [b"a", b"--", b"b", b"dest"]), ([b"-f", b"a", b"dest"], [b"-f", b"a", b"--", b"dest"]),
+                           ([b"a", b"dest"], [b"a", b"--", b"dest"])]),):
+        for a, b in lines:
             out.append(mark_equal(respell_sx(c, [b"prog"] + a, [b"prog"] + b)))
     return out
 
